@@ -127,7 +127,10 @@ def handleMemLine (line : String) : String :=
             if !wf v then []
             else
               (if n < inline L v then ["MON C16 estimate below inline size"] else []) ++
-              (if n ≠ foot + borrowed L v then ["MON C05 estimate differs from footprint"] else [])
+              (if n ≠ foot + borrowed L v then ["MON C05 estimate differs from footprint"] else []) ++
+              -- the property defines size as inline + OWNED heap: bytes a value merely borrows must not count
+              (if n = foot + borrowed L v ∧ borrowed L v > 0 then
+                 ["MON C05 estimate charges borrowed data (&str / &[T]) as if owned"] else [])
         match d1 ++ d2 ++ m with
         | [] => "ok"
         | issues => " ;; ".intercalate issues ++ ctx
